@@ -3,12 +3,12 @@
    the ocaml/gen directory by tools/build_model.sh so that model.ml lands there. *)
 From Coq Require Import Extraction ExtrOcamlBasic ExtrOcamlString.
 From QSX Require Import Base.QSum LP.ILP LP.Cert LP.User LP.OptTest LP.Driver.
-From QSX Require Import LP.Transform Float.Conv LP.Codes LP.LibSolution.
+From QSX Require Import LP.Transform LP.TransformBounds Float.Conv LP.Codes LP.LibSolution.
 From QSX Require Import Fac.Gauss Fac.Basis Fac.Factor.
 From QSX Require Import IO.Num IO.Equiv IO.Bounds IO.Bas IO.Sol.
 From QSX Require Import Store.Spec Store.Api.
-(* one Require line per area may be added below *)
 From QSX Require Import Fac.FTUpdate.
+(* one Require line per area may be added below *)
 
 Extraction Language OCaml.
 Extraction "model.ml"
@@ -17,7 +17,7 @@ Extraction "model.ml"
   to_internal ilp_eqb wf_ulp
   opt_test infeas_test wf_logicals
   exact_solver_gen exact_solver
-  neg_obj scale_row_lp dup_row add_redundant split_eq perm_rows is_perm subst_vars perm_cols
+  neg_obj scale_row_lp dup_row add_redundant split_eq perm_rows is_perm subst_vars perm_cols bound_to_row
   to_double ulp_of
   lib_solution internal_min
   lpstat_of_code code_of_lpstat col_bstat_of_code row_bstat_of_code max_levels
@@ -27,6 +27,6 @@ Extraction "model.ml"
   print_section parse_line
   sstep pstep dump_lines to_ulp empty_prob valid_args get_h
   api_init api_edit api_solve api_load_basis api_exact_cert
-  (* add names below, one line per area *)
   lib_optimalstatus lib_dualstatus loaded_basis lp_bounds_ok norm_stat spike usolve usolve_t bpost update update_spike struct_ok repr_same_u sparsify norm_line sort_sparse
+  (* add names below, one line per area *)
   .
